@@ -743,3 +743,84 @@ def rf44(run):
                       'the phi\'s block; the moves sit before the block-ending branch, so in a single-block loop a branch that uses r reads '
                       'the value of the next iteration (e.g. `while (n-- > 0) c++` counts one less)', line=ren[0]['l'])
     run.min_instances(rule, 1)
+
+
+# ---------------------------------------------------------------------------------------------
+# RF52: jump_opt keeps address-taken labels; RF53: the lref link step sees every lref item
+# ---------------------------------------------------------------------------------------------
+
+def rf52(run):
+    rule = 'RF52'
+    run.rule(rule, 'jump_opt deletes a label-only block unless the label is marked in temp_bitmap; the marking covers every way a label '
+                   'is referenced: branch and switch operands, the label operand of LADDR, and both labels of every lref data item of the '
+                   'function (the same sources build_func_cfg treats as address-taken, RF33)')
+    gen = run.tu('gen')
+    f = gen.func('jump_opt')
+    run.functions_analysed.add(('gen', f.name))
+    from rf_proto import dominating_conditions
+    cfg = f.cfg
+    sets = [x for x in f.walk() if x['k'] == 'CallExpr' and x.get('callee') == 'bitmap_set_bit_p' and 'temp_bitmap' in F.src(F.call_args(x)[0])]
+    tests = [x for x in f.walk() if x['k'] == 'CallExpr' and x.get('callee') == 'bitmap_bit_p' and 'temp_bitmap' in F.src(F.call_args(x)[0])]
+    if not sets or not tests:
+        raise F.AnalysisBroken('jump_opt: the label-use bitmap was not found')
+    srcs = [F.src(F.call_args(x)[1]) for x in sets]
+    have = {
+        'branch/switch operands': any('ops[i].u.label' in t for t in srcs),
+        'LADDR operand': any('ops[1].u.label' in t and any('MIR_LADDR' in c for c, tr in dominating_conditions(cfg, cfg.block_of(x)) if tr)
+                             for x, t in zip(sets, srcs)),
+        'lref label': any('lref->label->' in t for t in srcs),
+        'lref base label': any('lref->label2->' in t for t in srcs),
+    }
+    for kname, ok in have.items():
+        run.ob(rule, (kname,), ok, {'reference kind': kname, 'marked before label-only blocks are removed': ok})
+        if not ok:
+            run.violation(rule, f, 'labels referenced by %s' % kname, 'jump_opt does not mark labels referenced by %s as used: a block that '
+                          'consists of such a label only is removed, and the address stored by laddr / in the lref data points at deleted '
+                          'code (or the generator crashes on the freed label)' % kname, line=tests[0]['l'])
+    run.min_instances(rule, 4)
+
+
+def rf53(run):
+    rule = 'RF53'
+    run.rule(rule, 'MIR_load_module decides whether link_module_lrefs must run from a test of item_type == MIR_lref_data_item; the item '
+                   'tested must range over every item of the module, not over the variable that load_bss_data_section advances past '
+                   'a whole data section (an lref may continue a section started by a data/bss/ref item)')
+    tu = run.tu('mir')
+    f = tu.func('MIR_load_module')
+    run.functions_analysed.add(('mir', f.name))
+    asg = [x for x in f.walk() if x['k'] == 'BinaryOperator' and x['op'] == '=' and F.src(F.strip(x['c'][0])) == 'lref_p' and F.const_value(x['c'][1]) == 1]
+    calls = [x for x in f.walk() if x['k'] == 'CallExpr' and x.get('callee') == 'link_module_lrefs']
+    if not calls:
+        raise F.AnalysisBroken('MIR_load_module: call of link_module_lrefs not found')
+    if not asg:
+        # unconditional call is fine
+        from rf_proto import dominating_conditions
+        conds = dominating_conditions(f.cfg, f.cfg.block_of(calls[0]), selective=True)
+        ok = not conds
+        run.ob(rule, ('unconditional',), ok, {'link_module_lrefs called under': conds})
+        if not ok:
+            raise F.AnalysisBroken('MIR_load_module: link_module_lrefs is conditional but lref_p is not used')
+        return
+    skipping = set()
+    for x in f.walk():
+        if x['k'] == 'BinaryOperator' and x['op'] == '=' and F.strip(x['c'][1])['k'] == 'CallExpr' and F.strip(x['c'][1]).get('callee') == 'load_bss_data_section':
+            skipping.add(F.src(F.strip(x['c'][0])))
+    for a in asg:
+        guard = None
+        for anc in f.ancestors(a):
+            if anc['k'] == 'IfStmt' and 'MIR_lref_data_item' in F.src(anc['c'][0]):
+                guard = anc
+                break
+        if guard is None:
+            raise F.AnalysisBroken('MIR_load_module: lref_p = TRUE is not guarded by an item_type test')
+        var = None
+        for y in F.walk(guard['c'][0]):
+            if y['k'] == 'MemberExpr' and y['n'] == 'item_type':
+                var = F.src(F.strip(y['c'][0]))
+        ok = var is not None and var not in skipping
+        run.ob(rule, ('lref_p', a['l']), ok, {'tested item variable': var, 'variables advanced over whole sections': sorted(skipping)})
+        if not ok:
+            run.violation(rule, f, 'detection of lref items', 'lref_p is set from `%s->item_type`, but `%s` is advanced over a whole data '
+                          'section by load_bss_data_section: an lref item that continues a section started by another data item is never '
+                          'seen, link_module_lrefs is skipped and the label slot is never filled' % (var, var), line=a['l'])
+    run.min_instances(rule, 1)
